@@ -100,6 +100,34 @@ def c07_runs(tier):
                       L=2 if q else 3, symtruth=0, patterns=2, faults=1, setup_actions=1)
 
 
+def timers_run(name, defs=(), covers=(), **params):
+    return {'name': name, 'sources': ['harness/timers.c'] + ENVSRC, 'params': params, 'covers': list(covers),
+            'defs': list(defs), 'min_tasks': 32, 'max_split': 6,
+            'bounds': ' '.join('%s=%s' % kv for kv in sorted(params.items())) + (' ' + ' '.join(defs) if defs else '')}
+
+
+def c05_runs(tier):
+    q = tier == 'quick'
+    two = ['-DIVYKIS_VERIF_TIMER_SPLIT_BITS=2']
+    r = [timers_run('hist.sec', covers=['C05.history-fired-in-order', 'C05.history-unregister'], mode=0,
+                    L=5 if q else 7, sym=3),
+         timers_run('hist.pair', covers=['C05.history-fired-in-order'], mode=0, L=4 if q else 5, sym=1)]
+    for N in ([0, 1, 2, 3, 5, 8, 13] if q else list(range(0, 32))):
+        r.append(timers_run('step.N%d' % N, covers=['C05.step-register'], mode=1, N=N, sym=3))
+    if not q:
+        for N in range(0, 11):
+            r.append(timers_run('step.pair.N%d' % N, covers=['C05.step-register'], mode=1, N=N, sym=1))
+    for N in ([3, 4, 5, 15, 16, 17] if q else list(range(0, 67))):
+        r.append(timers_run('step2bit.N%d' % N, two, covers=['C05.step-register'], mode=1, N=N, sym=3))
+    for N in ([127, 128, 16383, 16384] if q else [126, 127, 128, 129, 130, 16382, 16383, 16384, 16385]):
+        x = timers_run('boundary.N%d' % N, covers=['C05.boundary-register', 'C05.boundary-unregister'], mode=2, N=N)
+        x['min_tasks'] = 8
+        x['max_split'] = 3
+        r.append(x)
+    r[-1]['covers'] = r[-1]['covers'] + ['C05.radix-level-removed']
+    return r
+
+
 LOOP_OUTSIDE = ('more descriptors/timers/tasks, more operations per callback and more loop iterations than stated; '
                 'the real kernel (the model is the trusted base); kqueue/dev-poll/port back ends (not built on Linux)')
 
@@ -133,6 +161,21 @@ CHECKS = {
                                 'within one second (nsec unknown) and the zero instant; full (sec,nsec) unknown pairs '
                                 'for 2 iterations', 'thorough': '9 iterations, 2 operations'},
             'outside': LOOP_OUTSIDE, 'assumptions': ENV_ASSUMPTIONS},
+    'C05': {'runs': c05_runs,
+            'explanation': 'C05: (a) every history of L register/unregister operations from empty with unknown '
+                           'expiries, then all due: fired order non-decreasing (solver), fired set = registered set; '
+                           '(b) inductive step at population N: heap built through the real API, all keys replaced by '
+                           'unknowns constrained only by the heap order, one operation, post-state read back by an '
+                           'independent slot walker (heap order on every parent/child pair, back indices, population, '
+                           'radix depth); (c) the 128 and 16384 capacity boundaries of the shipped 7-bit split with one '
+                           'unknown key, and the 4/16/64 boundaries with the 2-bit hook and all keys unknown.',
+            'bounds': {'quick': 'histories L<=5; step N in {0,1,2,3,5,8,13} (7-bit) and {3,4,5,15,16,17} (2-bit); '
+                                'boundaries N in {127,128,16383,16384}',
+                       'thorough': 'histories L<=7; step N=0..31 (7-bit), 0..66 (2-bit); boundaries 126..130, 16382..16385'},
+            'outside': 'populations between the sampled N for the inductive step in the quick tier; more than one '
+                       'unknown key at the 128/16384 boundaries; expiries beyond 10^6 s in this harness',
+            'assumptions': ENV_ASSUMPTIONS + ['the inductive step is only as strong as its invariant: heap order + back '
+                                              'indices + radix depth bounds, checked to be re-established']},
     'C06': {'runs': c06_runs,
             'explanation': 'C06: tasks registered from setup and from task/fd/timer handlers (choice by forking); '
                            'oracles: once per registration, unregistered on entry, zero timeout while a task is '
